@@ -275,7 +275,8 @@ static void do_op(client *c, int op, int arg)
             if (far) {
                 deadline = sim_now_ns() + FAR_WAIT_NS;
                 abst = (double)deadline * 1e-9;
-            }
+            } else if ((arg >> 3) % 7 == 0)
+                abst = (arg >> 6) & 1 ? 0.0 : (double)sim_now_ns() * 1e-9 - 1.0; /* a deadline that has passed: "do not wait" */
             ABT_unit u = ABT_UNIT_NULL;
             ABT_OK(ABT_pool_pop_timedwait(S.pool, &u, abst));
             if (u != ABT_UNIT_NULL) {
